@@ -107,8 +107,16 @@ class Stats:
         self.per_mode = {}
         self.errors = []
         self.batches = 0
+        self.scale_pairs = set()
+        self.int_types = set()
+        self.forms = set()
+        self.ops = set()
 
     def merge(self, o):
+        self.scale_pairs |= o.scale_pairs
+        self.int_types |= o.int_types
+        self.forms |= o.forms
+        self.ops |= o.ops
         self.evaluations += o.evaluations
         for d, od in ((self.outcomes, o.outcomes), (self.labels, o.labels), (self.sites, o.sites),
                       (self.per_build, o.per_build), (self.per_mode, o.per_mode)):
@@ -125,6 +133,8 @@ class Stats:
 
 
 NT_CAP = 200000
+_FORMS = {"vv", "rv", "vr", "rr", "av", "ar", "*"}
+_INT_TYPES = set(O.INT_TYPES)
 
 
 def run_probe(binary, reqfile, outfile, timeout=WATCHDOG_S, env=None):
@@ -160,6 +170,21 @@ def judge_batch(prop, reqs, out_lines, build_name, st, max_viol=25):
             st.errors.append("oracle exception on %r / %r: %s" % (req, line, traceback.format_exc()[-800:]))
             continue
         st.evaluations += 1
+        # dimension coverage derived from the request itself
+        st.ops.add(toks[0])
+        sc = []
+        for t in toks[1:5]:
+            if t[:1] == "D" and ":" in t:
+                sc.append(t[t.rfind(":") + 1:])
+            elif t in _FORMS:
+                st.forms.add(t)
+            else:
+                i = t.find(":")
+                if i > 0 and t[:i] in _INT_TYPES:
+                    st.int_types.add(t[:i])
+                    sc.append("i")
+        if len(sc) == 2:
+            st.scale_pairs.add(sc[0] + "/" + sc[1])
         okind = resp.kind if len(resp.kind) <= 6 else resp.kind[0]
         st.outcomes[okind] = st.outcomes.get(okind, 0) + 1
         st.labels[label] = st.labels.get(label, 0) + 1
@@ -306,6 +331,13 @@ def finish(prop, tier, seed, st, t0, extra, extra_coverage=None):
         "required_sites": required,
         "known_findings_seen": {k: v["count"] for k, v in st.kf.items()},
         "batches": st.batches,
+        "dimensions": {
+            "operations": sorted(st.ops),
+            "operand_forms": sorted(st.forms),
+            "int_types": sorted(st.int_types),
+            "scale_pairs_seen": len(st.scale_pairs),
+            "scale_pairs_possible": "361 for Decimal/Decimal, +19 per side with an integer operand ('i')",
+        },
     }
     if extra_coverage:
         cov.update(extra_coverage)
